@@ -225,3 +225,36 @@ Proof. rewrite mate_k_model. apply mate_dh. Qed.
 Lemma mate_k_meta p geno xoprob meta xc nmating nprogeny nself pc fc draws x :
   mate_k p geno xoprob meta xc nmating nprogeny nself pc fc draws = Some x -> p_meta x = meta.
 Proof. rewrite mate_k_model. apply mate_meta. Qed.
+
+(** * sessions: two consecutive mate() calls on one protocol object (the counters of the first call are those the second starts from;
+    everything else — matrix, probabilities, cross table, counts, selfing depth, draws — may have been replaced in between) *)
+Lemma session_counters p g1 xo1 m1 xc1 nm1 np1 ns1 pc fc d1 x1 g2 xo2 m2 xc2 nm2 np2 ns2 d2 x2 :
+  mate p g1 xo1 m1 xc1 nm1 np1 ns1 pc fc d1 = Some x1 -> nonneg_draws d1 ->
+  mate p g2 xo2 m2 xc2 nm2 np2 ns2 (p_pc x1) (p_fc x1) d2 = Some x2 -> nonneg_draws d2 ->
+  p_pc x2 = pc + Z.of_nat (length (p_taxa x1)) + Z.of_nat (length (p_taxa x2)) /\
+  p_fc x2 = fc + Z.of_nat (length xc1) + Z.of_nat (length xc2) /\
+  (forall j1 j2, (j1 < length (p_taxa x1))%nat -> (j2 < length (p_taxa x2))%nat -> nth j1 (p_grp x1) 0 < nth j2 (p_grp x2) 0).
+Proof.
+  intros H1 D1 H2 D2.
+  destruct (mate_counts _ _ _ _ _ _ _ _ _ _ _ _ H1) as (a1 & b1 & _ & _ & C1). cbv zeta in C1.
+  destruct C1 as (_ & _ & L1 & _ & P1 & F1 & _).
+  destruct (mate_counts _ _ _ _ _ _ _ _ _ _ _ _ H2) as (a2 & b2 & _ & _ & C2). cbv zeta in C2.
+  destruct C2 as (_ & _ & L2 & _ & P2 & F2 & _).
+  repeat split.
+  - rewrite P2, P1, L1, L2. reflexivity.
+  - rewrite F2, F1. reflexivity.
+  - intros j1 j2 J1 J2.
+    destruct (mate_mosaic _ _ _ _ _ _ _ _ _ _ _ _ H1 D1 j1 J1) as (i1 & I1 & E1 & _).
+    destruct (mate_mosaic _ _ _ _ _ _ _ _ _ _ _ _ H2 D2 j2 J2) as (i2 & I2 & E2 & _).
+    rewrite E1, E2, F1. lia.
+Qed.
+Lemma ex_session : exists x1 x2,
+  mate P3DH ex_geno ex_xoprob meta_none [[2; 0; 1]%nat] (inl 2%nat) (inl 2%nat) 1%nat 5 3 ex_draws = Some x1 /\
+  mate P3DH ex_geno ex_xoprob meta_none [[2; 0; 1]%nat] (inl 2%nat) (inl 2%nat) 1%nat (p_pc x1) (p_fc x1) ex_draws = Some x2 /\
+  p_pc x2 = 13 /\ p_fc x2 = 5.
+Proof.
+  eexists. eexists. split; [vm_compute; reflexivity|]. split; [vm_compute; reflexivity|]. split; vm_compute; reflexivity.
+Qed.
+Lemma ex_kernel_runs : exists x, mate_k P3DH ex_geno ex_xoprob meta_none [[2; 0; 1]%nat] (inl 2%nat) (inl 2%nat) 1%nat 5 3 ex_draws = Some x /\
+  length (p_taxa x) = 4%nat.
+Proof. rewrite mate_k_model. destruct ex_runs as (x & H & L & _). exists x. split; assumption. Qed.
